@@ -233,4 +233,14 @@ func runC08(c *Ctx) {
 		}
 	}
 	c.R.Floor(r4, 8)
+
+	const r5 = "C08.R5 the client hands events to their handler in arrival order"
+	he := cl + "runHandleEvent"
+	c.HasNot(r5, he, "no goroutine per event", `^go:`)
+	c.Has(r5, he, "handler called directly by the receive loop", `^call:dyn:`, 1)
+	sc := cl + "SubscribeChan$1"
+	c.Has(r5, sc, "SubscribeChan delivers with one blocking send on the subscriber's channel", `^send:\^events<-%ev$`, 1)
+	c.HasNot(r5, sc, "SubscribeChan spawns no goroutine", `^go:`)
+	c.R.Check(c.P.Func(sc+"$1") == nil, r5, sc, "SubscribeChan's handler has no nested closure (no deferred delivery)", "-", "a nested closure in the SubscribeChan handler: events handed over asynchronously can overtake each other")
+	c.R.Floor(r5, 5)
 }
